@@ -105,6 +105,12 @@ def battery(e, rng, limit_rows=2):
         vals = [col.raw_get(r) for r in rows[:3]]
         calls.append(('fetch_table', t, True, {c.colId: vals + [['L', 1]]}))
       sample = rows if len(rows) <= limit_rows else rng.sample(rows, limit_rows)
+      if c.formula or c.colId == 'group':
+        # a client with a slightly stale view: rows that are not (or no longer) in the table
+        for r in absent_row_ids(rows, 3 if c.colId == 'group' else 2):
+          calls.append(('get_formula_error', t, c.colId, r))
+          calls.append(('evaluate_formula', t, c.colId, r))
+      sample = rows if len(rows) <= limit_rows else rng.sample(rows, limit_rows)
       # a row id that does not exist: formulas with side effects (lookupOrAddDerived) then really add a record,
       # which get_formula_value has to undo
       for r in sample + ([max(rows) + 7] if rows and c.formula and 'lookupOrAddDerived' in c.formula else []):
@@ -120,6 +126,15 @@ def battery(e, rng, limit_rows=2):
     flat = [tb.get_column(c.colId).raw_get(r) for c in cols[:2] for r in rows[:3]]
     calls.append(('find_col_from_values', [v for v in flat if isinstance(v, (int, str, float))] + ['a', 1], 0, None))
     calls.append(('find_col_from_values', [1, 2, 'a'], 2, t))
+  # metadata tables whose formulas mark records for auto-removal (e.g. _grist_Filters.setAutoRemove)
+  for t in sorted(e.tables):
+    if t in G.user_tables(e) or t not in e.schema:
+      continue
+    for c in e.schema[t].columns.values():
+      if c.formula and 'setAutoRemove' in c.formula:
+        rows = list(e.tables[t].row_ids)
+        for r in (rows[:1] + absent_row_ids(rows, 2)):
+          calls.append(('get_formula_error', t, c.colId, r))
   return calls
 
 
@@ -168,6 +183,26 @@ def dirty_map(e):
 def lens(e):
   o = e.out_actions
   return (len(o.calc), len(o.stored), len(o.direct), len(o.undo), len(o.retValues))
+
+
+def auto_remove_marks(e):
+  """The genuine records currently marked for auto-removal, as (table, row id)."""
+  import records
+  try:
+    s = e.docmodel._auto_remove_set
+  except AttributeError:
+    raise core.TieBroken('docmodel._auto_remove_set no longer exists')
+  return sorted((getattr(getattr(x, '_table', None), 'table_id', '?'), getattr(x, '_row_id', None))
+                for x in s if isinstance(x, records.Record))
+
+
+def absent_row_ids(rows, limit=3):
+  """Row ids a client with a stale view may send: 0, ids of removed rows (holes), the id past the end."""
+  rows = sorted(rows)
+  top = rows[-1] if rows else 0
+  holes = [r for r in range(1, top) if r not in rows]
+  out = [top + 1] + holes[-2:] + [0]
+  return out[:limit]
 
 
 def residue(e):
@@ -223,6 +258,7 @@ def check_call(e, call, stats=None, hooks=None):
   """Performs one read-only call under the recorder; returns (kind, what) if the document is not as before."""
   before = G.snapshot(e)
   enc_before = enc_snapshot(e)
+  marks_before = auto_remove_marks(e)
   bs = G.engine_schema(e)
   bl = lens(e)
   dm = dirty_map(e)
@@ -263,6 +299,13 @@ def check_call(e, call, stats=None, hooks=None):
     return ('readonly-call-changed-schema', '%s changed engine.schema' % call[0], info)
   if lens(e) != bl:
     return ('checkpoint-not-restored', '%s left out_actions lengths %r (before %r)' % (call[0], lens(e), bl), info)
+  marks_after = auto_remove_marks(e)
+  if marks_after != marks_before:
+    # a formula marked a record for auto-removal during the evaluation and the mark survives the call: the NEXT
+    # apply_user_actions acts on it (apply_auto_removes) and emits a RemoveRecord nobody asked for
+    return ('readonly-call-leaves-auto-remove-mark',
+            '%s changed docmodel._auto_remove_set from %r to %r (the next bundle then removes those records)' % (
+              call[0], marks_before[:4], marks_after[:4]), info)
   res = residue(e)
   if res:
     return ('evaluate-formula-poisons-auto-remove-set' if call[0] == 'evaluate_formula' and 'AttributeRecorder' in res
@@ -350,6 +393,20 @@ def run_history(ctx, seed_rng, stats, on_case):
           ld1 = c04.LoggedDoc(ld2.log)
           break
         return found + [v]
+      # follow-up: on a clean document a Calculate must do on this engine exactly what it does on the untouched control
+      # (nothing): marks or dirt a call left behind only show at the next apply_user_actions
+      evaluating = call[0] in ('get_formula_error', 'evaluate_formula', 'autocomplete', 'get_formula_prompt')
+      if not ld1.e.recompute_map and not ld2.e.recompute_map and \
+         (evaluating or ctx.tier != 'thorough' or seed_rng.random() < 0.25):
+        log_before = copy.deepcopy(ld2.log)
+        o = both([['Calculate']])
+        stats['follow-up-calculates'] += 1
+        if o[0] != o[1] or G.snapshot(ld1.e) != G.snapshot(ld2.e):
+          v = {'kind': 'calculate-emits-after-readonly',
+               'what': 'Calculate right after %s(%s) differs from the control engine: %s vs %s' % (
+                 call[0], ', '.join(repr(a)[:40] for a in call[1:4]), o[0][1][:200], o[1][1][:200]),
+               'replay': {'log': log_before, 'calls': [list(call)], 'then': [['Calculate']]}}
+          return found + [v]
     if b == nb:
       break
     bundle = gen.bundle(ld1.e)
@@ -429,18 +486,36 @@ def error_state_logs():
           ('encoded-error-in-data-cell', stored)]
 
 
+def stale_view_logs():
+  """Documents in which rows have just gone: a summary row auto-removed with its last source row (a client with a
+  slightly stale view still asks about it), a plain table with a removed row, and a filter record."""
+  base = [[['AddTable', 'Src', [{'id': 'K', 'type': 'Text', 'isFormula': False}, {'id': 'V', 'type': 'Int', 'isFormula': False},
+                                {'id': 'W', 'type': 'Int', 'isFormula': True, 'formula': '$V * 2'}]]],
+          [['BulkAddRecord', 'Src', [None, None, None], {'K': ['a', 'b', 'a'], 'V': [1, 2, 3]}]]]
+  ld = c04.LoggedDoc(base)
+  k_ref = ld.e.docmodel.get_column_rec('Src', 'K').id
+  src_ref = ld.e.docmodel.get_table_rec('Src').id
+  summ = base + [[['CreateViewSection', src_ref, 0, 'record', [k_ref], None]]]
+  gone = summ + [[['RemoveRecord', 'Src', 2]]]
+  return [('summary-row-just-auto-removed', gone), ('summary-table-all-groups-live', summ)]
+
+
 def error_states(ctx, stats, seen):
   """The whole battery on the documents of error_state_logs(), then a follow-up bundle against a control engine."""
   import random
-  then = [['Calculate'], ['UpdateRecord', 'Math', 1, {'A': 2}]]
-  for name, log in error_state_logs():
+  errs = error_state_logs()
+  for name, log in errs + stale_view_logs():
     ld = c04.LoggedDoc(log)
     if ld.e.recompute_map:
       raise core.TieBroken('directed error state %s is not clean after its log' % name)
     held = sum(1 for t in G.user_tables(ld.e) for c in ld.e.tables[t].all_columns.values() if not c.is_private()
                for r in ld.e.tables[t].row_ids if type(c.raw_get(r)).__name__ == 'RaisedException')
-    if not held:
+    if not held and (name, log) in errs:
       raise core.TieBroken('directed error state %s holds no RaisedException cell' % name)
+    if name == 'summary-row-just-auto-removed' and list(ld.e.tables['Src_summary_K'].row_ids) != [1]:
+      raise core.TieBroken('directed state %s: the summary row was not auto-removed' % name)
+    control = canon_out(c04.LoggedDoc(log).apply([['Calculate']]))
+    then = [['Calculate'], ['UpdateRecord', 'Math', 1, {'A': 2}] if (name, log) in errs else ['AddRecord', 'Src', None, {'K': 'b'}]]
     stats['error-state-cells-holding-errors:' + name] = held
     done = []
     bad = None
@@ -456,6 +531,13 @@ def error_states(ctx, stats, seen):
       if kind:
         bad = (kind, what, [list(call)])
         break
+      if not ld.e.recompute_map:
+        got = canon_out(ld.e.apply_user_actions([G.ua(['Calculate'])]))
+        stats['error-state-follow-up-calculates'] += 1
+        if got != control:
+          bad = ('calculate-emits-after-readonly', 'Calculate right after %s%r emits %s; on the untouched control: %s' % (
+            call[0], tuple(call[1:4]), got[:200], control[:200]), [list(call)])
+          break
     if bad is None:
       r = replay_kind({'log': log, 'calls': done, 'then': then})
       if r is not None:
